@@ -109,6 +109,7 @@ def shared_run(ctx, scenarios, label):
         ctx.broke("model extraction/driver build (hostmodel)", err)
         return None
     key = vc.sha_files([h, m], extra=text)[:24]
+    vc.prune_work("hostmodel")
     d = os.path.join(vc.BUILD, "work", "hostmodel", label + "_" + key)
     os.makedirs(d, exist_ok=True)
     cases_p, impl_p, model_p = (os.path.join(d, x) for x in ("cases.txt", "impl.out", "model.out"))
@@ -168,6 +169,25 @@ def check(ctx, replay=None):
     # C09: Model::run_step against the same actions applied one by one outside the model
     # (public action classes, legacy Simulation methods) and disabled-input influence
     compose.part(ctx, pid, replay)
+    if pid == "C11":
+        # the Mortality action class with FIXED rate and lag (the path Simulation::mortality takes; the
+        # model's own mortality is table-driven) is exercised by the compose module: its comparison of
+        # the mortality tracker, died and infected rasters after every step belongs to C11 as well
+        class MortalityView:
+            def __init__(self, c):
+                self._c = c
+
+            def __getattr__(self, n):
+                return getattr(self._c, n)
+
+            def violation(self, key, what, case=None, detail=None):
+                m = re.match(r"C09\.composition\.(actions|simulation)\.(mortality_tracker|died)$", key)
+                if m:
+                    self._c.violation("C11.composition.%s.%s" % (m.group(1), m.group(2)), what, case, detail)
+
+            def broke(self, name, detail):
+                pass   # reported by C09's own check
+        compose.part(MortalityView(ctx), "C09", replay)
     if replay:
         class S:  # a replay file is a sequence of case blocks
             def __init__(self, t):
